@@ -494,9 +494,9 @@ func c04NullDeletes(w *World, r *Report) {
 	}
 	// constants at the public wrappers
 	for _, e := range []struct {
-		fn    string
+		fn     string
 		callee string
-		want  bool
+		want   bool
 	}{
 		{"CoalesceValues", "coalesce", false}, {"MergeValues", "coalesce", true}, {"CoalesceTables", "coalesceTablesFullKey", false}, {"MergeTables", "coalesceTablesFullKey", true},
 	} {
@@ -507,7 +507,7 @@ func c04NullDeletes(w *World, r *Report) {
 		}
 		ok := false
 		for _, c := range callInstrs(fn) {
-			if f, _ := calleeOf(c.Common()); f != nil && f.Name() == e.callee {
+			if f, _ := calleeOf(c.Common()); f != nil && refBareName(f) == e.callee {
 				args := c.Common().Args
 				if b, isC := constBool(args[len(args)-1]); isC && b == e.want {
 					ok = true
